@@ -18,6 +18,7 @@
 #endif
 #include "trace.hpp"
 
+#include <signal.h>
 #include <sys/wait.h>
 #include <unistd.h>
 
@@ -283,6 +284,9 @@ static std::string probe_entry(int s, unsigned long long entry, bool sigB)
   if (pid == 0) {
     close(fds[0]);
     probe_fd = fds[1];
+    for (int sig : { SIGSEGV, SIGBUS, SIGFPE, SIGILL, SIGABRT }) {
+      signal(sig, SIG_DFL);
+    }
     std::set_terminate([] { _exit(4); });
     try {
       if (sigB) {
@@ -308,8 +312,21 @@ static std::string probe_entry(int s, unsigned long long entry, bool sigB)
   return got;
 }
 
+// A fatal signal while an action runs against the real code is the observation of that action.
+static void on_crash(int sig)
+{
+  tr::Ev e("crash");
+  e.num("lineno", cur_lineno).num("signal", sig);
+  out.put(e);
+  out.flush();
+  _exit(3);
+}
+
 int main(int argc, char** argv)
 {
+  for (int sig : { SIGSEGV, SIGBUS, SIGFPE, SIGILL, SIGABRT }) {
+    signal(sig, on_crash);
+  }
   if (argc < 3) {
     return 2;
   }
